@@ -125,7 +125,12 @@ def _slice_list(lst, sl):
     return out
 
 
-def arange(start, stop=None, step=None):
+def arange(start, stop=None, step=None, dtype=None):
+    """dtype: an integer dtype is accepted and ignored - the contract model has unbounded integers, so the wrap-around of a narrow index
+    dtype (>= 128 elements) is outside what the model can show (stated in the evidence of the checks that use the shim); any other
+    dtype is outside the modelled surface"""
+    if dtype is not None and _real.dtype(dtype).kind not in 'iu':
+        raise NotImplementedError('np_shim.arange: non-integer dtype')
     if stop is None:
         start, stop = 0, start
     if step is None:
